@@ -110,15 +110,41 @@ def r11_1(ctx: Ctx) -> None:
     for key, val in itertools.product([True, False], repeat=2):
         env = {roles_c["key_lhs"]: "k", roles_c["key_rhs"]: ({"k"} if key else set()), roles_c["validator"]: val,
                roles_c["handler"]: "HANDLER"}
-        ev = Evaluator(env, ldc)
-        outcome, node, trace = walk(gc, ev)
-        if outcome == "unknown":
-            raise AnalysisError(f"R11.1: cannot evaluate branch {unparse(node.ast)[:70]} of __call__")
-        reached = outcome == "return" and ev.ev(node.ast.value) == "HANDLER"
-        if reached != (key and val):
-            badc.append(f"key={key} validator={val}: handler reached={reached}")
+        # a condition of the dispatcher that the dry run has no counterpart for is a free atom: the handler must be reached (or
+        # not) whatever its value - otherwise execution accepts requests the dry run refuses, or the reverse
+        pending = [dict(env)]
+        free_seen: List[str] = []
+        while pending:
+            e_ = pending.pop()
+            ev = Evaluator(e_, ldc)
+            outcome, node, trace = walk(gc, ev)
+            if outcome == "unknown":
+                atom = unparse(node.ast)
+                if len(free_seen) >= 3 or atom in e_:
+                    raise AnalysisError(f"R11.1: cannot evaluate branch {atom[:70]} of __call__")
+                if atom not in free_seen:
+                    free_seen.append(atom)
+                for b in (True, False):
+                    e2 = dict(e_)
+                    e2[atom] = b
+                    pending.append(e2)
+                continue
+            reached = outcome == "return" and ev.ev(node.ast.value) == "HANDLER"
+            if reached != (key and val):
+                extra = {a: e_[a] for a in free_seen if a in e_}
+                badc.append(f"key={key} validator={val}" + (f" with {extra}" if extra else "") + f": handler reached={reached}"
+                            + (" - the dry run knows nothing of this condition" if extra else ""))
     ctx.record("R11.1", ctx.key(call, "__call__ truth table"), call.loc(), not badc,
                "4 cases: the handler is reached exactly when key AND validator" if not badc else "dispatcher table differs", badc)
+    # both functions look up the key they were given: the key variable is bound once, from request[0], in each of them
+    for fn_, rl in ((cv, roles), (call, roles_c)):
+        kv = rl["key_lhs"]
+        defs = [v for v, i in LocalDefs(fn_.node).all_values(kv)] if kv.isidentifier() else []
+        okk = (not kv.isidentifier()) or (len(defs) == 1 and defs[0] is not None and unparse(defs[0]) == "request[0]")
+        ctx.record("R11.1", ctx.key(fn_, "the key looked up is request[0], bound once"), fn_.loc(), okk,
+                   f"`{kv}` = {[unparse(d)[:40] if d is not None else '?' for d in defs]}" + ("" if okk else
+                   " - the function rewrites the key before looking it up; unless its twin does exactly the same, execution and dry run resolve "
+                   "different entries"))
     # same argument lists for the validator in both functions
     if uses_validator:
         same = roles["validator"] == roles_c["validator"]
